@@ -212,6 +212,15 @@ func safeRun[C any](p Prop[C], c C) (out Outcome, err error) {
 		case r := <-done:
 			out, err = r.out, r.err
 		case <-time.After(p.HangAfter):
+			// The timer also fires when the whole process was stopped for that long (a sandbox copy,
+			// a stalled machine) and the case merely had no chance to run. A hang is a case that
+			// STILL has not returned after a grace period measured from now; one that returns within
+			// it is judged by its result like any other.
+			select {
+			case r := <-done:
+				return finish(r.out, r.err)
+			case <-time.After(hangGrace):
+			}
 			buf := make([]byte, 1<<16)
 			buf = buf[:runtime.Stack(buf, true)]
 			return Outcome{}, Poison(fmt.Errorf("the case did not return within %v: a library call hangs (a lock left held by an earlier call, an endless loop)\ngoroutines:\n%s", p.HangAfter, trunc(string(buf), 6000)))
@@ -219,6 +228,14 @@ func safeRun[C any](p Prop[C], c C) (out Outcome, err error) {
 	} else {
 		out, err = p.Run(c)
 	}
+	return finish(out, err)
+}
+
+// hangGrace: see safeRun.
+const hangGrace = 5 * time.Second
+
+// finish maps a harness-side failure to an excluded case and passes everything else on.
+func finish(out Outcome, err error) (Outcome, error) {
 	if err != nil && strings.HasPrefix(err.Error(), "harness:") {
 		// the harness could not run the case (no socket, sink starved by a busy machine, ...):
 		// never a verdict about the code under test; counted, and the driver reports the run
